@@ -290,9 +290,12 @@ class SpecMixin:
             a = self.sev(env, args[0])
             if z3.is_real(a): return z3.If(a >= 0, z3.ToInt(a), -z3.ToInt(-a))
             return a
-        if name == 'tdiv':     # Go's truncated division on mathematical integers
+        if name in ('tdiv', 'tmod'):     # Go's truncated division / remainder: the shared symbols (true division inside `interpret` lemmas)
             a, b = self.sev(env, args[0]), self.sev(env, args[1])
-            return z3.If(b > 0, z3.If(a >= 0, a / b, -((-a) / b)), z3.If(a >= 0, -(a / (-b)), (-a) / (-b)))
+            if getattr(self, 'interpret_prod', False) or not hasattr(self, 'tdiv'):
+                q = z3.If(b > 0, z3.If(a >= 0, a / b, -((-a) / b)), z3.If(a >= 0, -(a / (-b)), (-a) / (-b)))
+                return q if name == 'tdiv' else a - b * q
+            return self.tdiv(env.st, a, b) if name == 'tdiv' else self.tmod(env.st, a, b)
         if name == 'abs':
             a = self.sev(env, args[0]); return z3.If(a >= 0, a, -a)
         if name == 'min':
